@@ -41,15 +41,15 @@ BUILDER_OF.update({a: "get_model_config" for a in cu.MODEL_ARGS})
 
 def design_checks(res):
     jobs = {
-        "aug_as_coded": lambda: check_model("MC_ConfigAug", AUG_CFG % ("TRUE", "INVARIANT ListedEnabled\n"), timeout=300,
+        "aug_as_coded": lambda: check_model("MC_ConfigAug", AUG_CFG % ("TRUE", "INVARIANT ListedEnabled\n"), timeout=900,
                                             workers=2, expect_violation=("invariant", "ListedEnabled")),
-        "aug_intended": lambda: check_model("MC_ConfigAug", AUG_CFG % ("FALSE", INV3), timeout=300, workers=2,
+        "aug_intended": lambda: check_model("MC_ConfigAug", AUG_CFG % ("FALSE", INV3), timeout=900, workers=2,
                                             require_actions=("ListStart", "GeoStep", "ApplyIntensity")),
         "aug_as_coded_only_listed": lambda: check_model("MC_ConfigAug", AUG_CFG % ("TRUE", "INVARIANT OnlyListedEnabled\n"),
-                                                        timeout=300, workers=2),
-        "norm": lambda: check_model("MC_ConfigNorm", NORM_CFG % ("FALSE", NORM_INV), timeout=300, workers=2,
+                                                        timeout=900, workers=2),
+        "norm": lambda: check_model("MC_ConfigNorm", NORM_CFG % ("FALSE", NORM_INV), timeout=900, workers=2,
                                     require_actions=("Normalise", "Renormalise", "SaveYaml", "LoadYaml")),
-        "norm_lossy": lambda: check_model("MC_ConfigNorm", NORM_CFG % ("TRUE", "INVARIANT RoundTripLossless\n"), timeout=300,
+        "norm_lossy": lambda: check_model("MC_ConfigNorm", NORM_CFG % ("TRUE", "INVARIANT RoundTripLossless\n"), timeout=900,
                                           workers=2, expect_violation=("invariant", "RoundTripLossless")),
     }
     notes = {
